@@ -359,7 +359,7 @@ pub fn specs() -> Vec<PropSpec> {
         },
         PropSpec {
             id: "C15",
-            parts: &[("c15", 192, 4000)],
+            parts: &[("c15", 192, 4000), ("c15host", 64, 1000)],
             level: "fault_enumeration",
             tags: &["C15"],
             rule: "Each evaluation is one run of 2-4 signing rounds on an \
@@ -707,6 +707,21 @@ pub fn run_profile(
         let res = std::thread::Builder::new()
             .stack_size(64 * 1024 * 1024)
             .spawn(move || crate::c15::run(seed))
+            .expect("spawn").join();
+        return match res {
+            Ok(report) => report,
+            Err(p) => RunReport {
+                seed,
+                profile: name.to_string(),
+                harness_error: Some(crate::util::panic_message(&p)),
+                ..Default::default()
+            }
+        }
+    }
+    if name == "c15host" {
+        let res = std::thread::Builder::new()
+            .stack_size(64 * 1024 * 1024)
+            .spawn(move || crate::c15h::run(seed))
             .expect("spawn").join();
         return match res {
             Ok(report) => report,
